@@ -257,13 +257,13 @@ Proof.
   destruct (prologue p (square_all K m) n) as [M| |]; cbn [bind post]; try reflexivity.
   destruct (m_obs M =? 0); [reflexivity|].
   change (st_reset kcore s (m_obs M)) with (st_reset K s (m_obs M)).
-  change (k_max kcore) with (k_max K). change (k_ltb kcore) with (k_ltb K). change (k_eqb kcore) with (k_eqb K).
+  change (k_inf kcore) with (k_inf K). change (k_ltb kcore) with (k_ltb K). change (k_eqb kcore) with (k_eqb K).
   change (init_row kcore p M) with (init_row K p M).
   change (gen_iter kcore p meth) with (gen_iter K p meth).
   destruct (mfold (init_row K p M) (seq 0 (m_obs M - 1))
-              (h_prio (h_heapify_pre (k_max K) (st_queue (st_reset K s (m_obs M)))), st_nearest (st_reset K s (m_obs M))))
+              (h_prio (h_heapify_pre (k_inf K) (st_queue (st_reset K s (m_obs M)))), st_nearest (st_reset K s (m_obs M))))
     as [[dists nearest]| |]; cbn [bind post]; try reflexivity.
-  destruct (h_heapify_post (k_ltb K) (h_heapify_pre (k_max K) (st_queue (st_reset K s (m_obs M)))) dists) as [q1| |];
+  destruct (h_heapify_post (k_ltb K) (h_heapify_pre (k_inf K) (st_queue (st_reset K s (m_obs M)))) dists) as [q1| |];
     cbn [bind post]; try reflexivity.
   destruct (mfold (gen_iter K p meth) (seq 0 (m_obs M - 1))
               (st_with_nearest (st_with_queue (st_reset K s (m_obs M)) q1) nearest, d_reset d (m_obs M), M)) as [[[s1 d1] M1]| |];
